@@ -487,6 +487,17 @@ func run(c *lib.Ctx, cs *Case) {
 	c.PredFail(id, sig, what, map[string]interface{}{"shrunk": small, "original": cs})
 }
 
+// outerOnlyConjunct: some conjunct of the filter references outer columns only
+func outerOnlyConjunct(e *Expr) bool {
+	if e == nil {
+		return false
+	}
+	if e.Op == "and" {
+		return outerOnlyConjunct(e.A) || outerOnlyConjunct(e.B)
+	}
+	return e.Q == nil && escapesE(e, 1) && !innerRef(e)
+}
+
 func isRootCause(name string) bool {
 	for _, t := range triggerOrder {
 		if t == name {
@@ -586,6 +597,11 @@ func features(cs *Case) []string {
 			if e.A.Op != "in" && e.A.Op != "inq" && e.A.Op != "exists" {
 				set["not"] = true
 			}
+			if (e.A.Op == "inq" || e.A.Op == "exists") && e.A.Q != nil {
+				if b := peel(e.A.Q); b != nil && (b.K == "select" || b.K == "group") && outerOnlyConjunct(b.Wh) {
+					set["anti-with-outer-only-conjunct"] = true
+				}
+			}
 			we(e.A, true)
 			return
 		case "in", "inq", "exists":
@@ -645,6 +661,12 @@ func features(cs *Case) []string {
 				n += "-all"
 			}
 			set[n] = true
+			if q.L.K == "setop" {
+				set["set-op-chain"] = true
+				if q.L.SOp == "except" && !q.L.All && !q.All {
+					set["set-op-chain-except-under-distinct"] = true
+				}
+			}
 		case "order":
 			if len(q.OKeys) > 0 {
 				set["order-by"] = true
